@@ -40,12 +40,16 @@ def observed_ids(db):
     obs = {}
 
     def see(name, how):
-        last = name.split("::")[-1]
+        parts = name.split("::")
+        last = parts[-1]
         m = NAME_RE.search(last)
         if not m:
-            m2 = re.match(r"(?:upcast_to_|downcast_to_)", last)
             return
         obs.setdefault(int(m.group(2)), set()).add(how)
+        if len(parts) >= 2:
+            mc = re.match(r"K(\d+)$", parts[-2])
+            if mc:
+                obs.setdefault((int(mc.group(1)), int(m.group(2))), set()).add(how)
     for f in db["functions"]:
         nm = f["scoped_name"]
         last = nm.split("::")[-1]
@@ -106,6 +110,12 @@ def expectations(lib, promiscuous, ignores):
             return all(any(_bad(t) for t in list(ov["params"]) + [ov["ret"]]) for ov in e["ovs"])
         return any(_bad(t) for t in hgen._types_of(e))
 
+    def ov_exported(e, ov):
+        v = ov.get("vis", e["vis"])
+        if v == "public" and e.get("cls") is not None and e["cls"].get("inpub"):
+            v = "published"
+        return hgen.VIS.index(v) <= minv and not any(_bad(t) for t in list(ov["params"]) + [ov["ret"]])
+
     def involves(e, cls_ids):
         for t in hgen._types_of(e):
             if t.kind == "obj" and t.ref["id"] in cls_ids:
@@ -120,6 +130,32 @@ def expectations(lib, promiscuous, ignores):
             continue            # operators carry no entity id in their name: judged by C05
         cls = e.get("cls")
         in_ns = bool(lib.ns) and cls is not None
+        if k == "method" and cls is not None and (e.get("overrides") or any(ov.get("vis", e["vis"]) != e["vis"] for ov in e["ovs"])
+                                                   or any(x is not e and x["kind"] == "method" and x["name"] == e["name"] for x in cls["members"])):
+            # per-overload visibility / overrides: judged per (class, name)
+            if not local(cls):
+                must_not[(cls["id"], e["id"] if not e.get("overrides") else e["overrides"][0])] = "class declared only in a -I/-S file"
+                continue
+            same = [x for x in cls["members"] if x["kind"] == "method" and x["name"] == e["name"]]
+            any_exp = any(ov_exported(x, ov) for x in same for ov in x["ovs"])
+            key = (cls["id"], e["id"] if not e.get("overrides") else e["overrides"][0])
+            if not any_exp:
+                must_not[key] = "no flavour of %s::%s has the requested visibility" % (cls["name"], e["name"])
+            elif not (in_ns or cls["id"] in ign_type or e["name"] in ign_member or cls["file"] in ign_file or
+                      any(involves(x, ignores.get("involved", set())) for x in same)):
+                if e.get("overrides") or (e.get("virt") and cls["bases"]):
+                    # an override need not be repeated when every flavour of the inherited method is published in the
+                    # single, public, non-virtual base (it is reachable through the base)
+                    b = cls["bases"]
+                    inherited = [x for x in (b[0]["c"]["members"] if b else []) if x["kind"] == "method" and x["name"] == e["name"]]
+                    if len(b) == 1 and b[0]["acc"] == "public" and not b[0]["virt"] and (not inherited or all(
+                            (ov.get("vis", x["vis"]) == "published" or (ov.get("vis", x["vis"]) == "public" and b[0]["c"].get("inpub")))
+                                for x in inherited for ov in x["ovs"])):
+                        continue
+                    if len(b) != 1 or not inherited:
+                        continue        # deeper or multiple inheritance: not decided here
+                must[key] = "a flavour of %s::%s is %s" % (cls["name"], e["name"], "published" if not minv else "public")
+            continue
         if cls is not None:
             why_not = None
             if not local(cls):
@@ -131,7 +167,7 @@ def expectations(lib, promiscuous, ignores):
             elif forbidden(e):
                 why_not = "signature involves a private/protected type"
             if why_not:
-                must_not[e["id"]] = why_not
+                must_not[(cls["id"], e["id"])] = why_not
                 continue
             if in_ns or cls["id"] in ign_type or e["name"] in ign_member or cls["file"] in ign_file or involves(e, ignores.get("involved", set())):
                 continue            # not decided here
@@ -141,7 +177,7 @@ def expectations(lib, promiscuous, ignores):
                 continue
             if k == "field" and e["t"].kind == "obj" and e["t"].mode == 0:
                 continue
-            must[e["id"]] = "%s %s member of a command-line class" % (e["vis"], k)
+            must[(cls["id"], e["id"])] = "%s %s member of a command-line class" % (e["vis"], k)
         else:
             gv = 0 if e.get("inpub") else 1
             why_not = None
@@ -196,29 +232,31 @@ def judge(case, ctx):
         if nlines:
             run.write(os.path.join(d, "l.N"), "\n".join(nlines) + "\n")
         opts = ["-python-native", "-string"] + (["-promiscuous"] if prom else [])
-        r = igate.interrogate(d, ["l.h"], opts=opts, extra_search=lib.search)
+        r = igate.interrogate(d, lib.cmd_headers, opts=opts, extra_search=lib.search)
         if r.abnormal or r.rc != 0:
             return Outcome(ok=False, key="igate:" + r.kind(),
-                           detail="interrogate failed (%s) on a header g++ accepts: %s\n%s" % (r.kind(), r.err.decode("latin-1")[-500:], lib.files["l.h"]))
+                           detail="interrogate failed (%s) on a header g++ accepts: %s\n%s" % (r.kind(), r.err.decode("latin-1")[-500:], lib.files[lib.main]))
         db = igate.load_db(os.path.join(d, "l.in"))
     obs = observed_ids(db)
     classes = set()
+    mn_ids = {(k[1] if isinstance(k, tuple) else k): v for k, v in must_not.items()}
+    m_ids = {(k[1] if isinstance(k, tuple) else k) for k in must}
     for e in lib.entities:
-        if e["id"] in must_not:
-            r_ = must_not[e["id"]]
+        if e["id"] in mn_ids:
+            r_ = mn_ids[e["id"]]
             classes.add("not:" + ("file" if "-I/-S" in r_ else r_.split()[-1] if "member is" in r_ else "forbidden" if "involves" in r_ else "public-only"))
-        if e["id"] in must:
+        if e["id"] in m_ids:
             classes.add("must:" + e["kind"] + ":" + e["file"])
     for i, why in must_not.items():
         if i in obs:
-            e = ents[i]
+            e = ents[i[1] if isinstance(i, tuple) else i]
             return Outcome(ok=False, key="leak:" + why.split()[0], classes=sorted(classes),
                            detail="%s %s (%s) is exported (%s) although: %s\noptions: %s, .N: %s\n%s" % (
                                e["kind"], e["name"], e["file"], sorted(obs[i]), why, "-promiscuous" if prom else "default", nlines,
                                "\n".join("== %s\n%s" % kv for kv in lib.files.items() if not kv[0].endswith("common.h"))))
     for i, why in must.items():
         if i not in obs:
-            e = ents[i]
+            e = ents[i[1] if isinstance(i, tuple) else i]
             return Outcome(ok=False, key="missing:" + e["kind"], classes=sorted(classes),
                            detail="%s %s is not exported although it is a %s\noptions: %s, .N: %s\n%s" % (
                                e["kind"], e["name"], why, "-promiscuous" if prom else "default", nlines,
@@ -233,12 +271,12 @@ def judge(case, ctx):
                 if re.search(r"\b%s\b" % hn, tn):
                     return Outcome(ok=False, key="leak:wrapper-type", classes=sorted(classes),
                                    detail="a callable wrapper (function index %d) has a parameter/return of %s type %s\n%s" % (
-                                       w["function"], hidden[hn]["vis"], tn, lib.files["l.h"]))
+                                       w["function"], hidden[hn]["vis"], tn, lib.files[lib.main]))
     nt = []
     if len([c for c in classes if c.startswith("not:")]) + len({c.split(":")[2] for c in classes if c.startswith("must:")}) >= 4:
         nt.append(",".join(sorted(classes)) + ("|P" if prom else "|D"))
     return Outcome(ok=True, nontrivial=nt, classes=sorted(classes) + (["opt.promiscuous"] if prom else ["opt.default"]) + ["N." + c for c in case["ncmds"]],
-                   sample={"main_header": lib.files["l.h"].split("\n")[:25], "promiscuous": prom, "must": len(must), "must_not": len(must_not)})
+                   sample={"main_header": lib.files[lib.main].split("\n")[:25], "promiscuous": prom, "must": len(must), "must_not": len(must_not)})
 
 
 def worker(ctx, widx, stage, stats):
